@@ -1,6 +1,6 @@
 (* Dispatch.v — single entry point of the extracted model. *)
 From Coq Require Import ZArith List.
-From PV Require Import extract.Cases at4.Flat4 at5.Flat5 extract.Doms.
+From PV Require Import extract.Cases at4.Flat4 at5.Flat5 extract.Doms spec.FlatSpec.
 Import ListNotations.
 Open Scope Z_scope.
 
@@ -19,5 +19,6 @@ Definition run_case (l : list Z) : list Z :=
   | 30 :: args => run_enc5 args
   | 31 :: args => run_dec5 args
   | 32 :: args => run_dom5 args
+  | 40 :: args => run_spec args
   | _ => [-1]
   end.
